@@ -237,7 +237,8 @@ func (tree *MutableTree) Iterate(fn func(key []byte, value []byte) bool) (stoppe
 			return true, nil
 		}
 	}
-	return false, nil
+	// the iterator also becomes invalid when a fast node cannot be read
+	return false, itr.Error()
 }
 
 // Iterator returns an iterator over the mutable tree.
